@@ -137,7 +137,9 @@ func (c *gengoCtx) pkgChanged(pkgPath string) bool {
 	if previous == nil || current == nil {
 		return true
 	}
-	return previous.Sum(pkgPath) != current.Sum(pkgPath)
+	sum := current.Sum(pkgPath)
+	// a directory that could not be hashed is never "unchanged"
+	return sum == "" || previous.Sum(pkgPath) != sum
 }
 
 func (c *gengoCtx) pkgExecute(pctx corecontext.Context, pkg string, generators ...Generator) (finalErr error) {
